@@ -38,7 +38,7 @@ def family(err):
     return None
 
 
-PRES_PASSES = [("mono", "core", "mono"), ("anf", "lift", "anf")]     # (pass, input stage, output stage)
+PRES_PASSES = [("mono", "core", "mono"), ("lift", "mono", "lift"), ("anf", "lift", "anf")]     # (pass, input stage, output stage)
 
 
 def run_pres(ctx, progs):
@@ -78,10 +78,14 @@ def run_pres(ctx, progs):
                 a["tie_" + v] = a.get("tie_" + v, 0) + 1
                 if v not in ("EQ", "EQT"):
                     ctx.broken_ties.append((f"c03pres {pas} tie", f"{f[0]}: model output differs from the real {pas} dump"))
-            elif key in ("contra", "closed_contra"):
+            elif key in ("contra", "closed_contra", "scoped_contra"):
                 if v.strip():
                     ctx.broken_ties.append((f"c03pres {pas} theorem instance",
                                             f"{f[0]}: hypotheses hold but the conclusion evaluates to false for {v} ({key})"))
+            elif key == "judge_diff":
+                if v.strip():
+                    ctx.broken_ties.append((f"c03pres {pas} tie", f"{f[0]}: the model's output and the real {pas} dump are judged "
+                                                                   f"differently by Wt for {v}"))
             elif key == "not_in_hyp":
                 if v.strip():
                     a.setdefault("programs_with_a_function_outside_the_hypothesis", []).append(f"{f[0]}: {v}")
